@@ -110,7 +110,7 @@ theorem MolIso.ringsThrough (h : MolIso π m m') (x : Nat) :
   exact mem_map_inj h.inj r x
 
 theorem MolIso.openMap (h : MolIso π m m') (hm : m.wf = true) (hm' : m'.wf = true) : OpenMap π m m' := by
-  refine ⟨h.inj, fun x _ => h.atom? x, fun x y _ _ => h.bondBetween hm hm' x y, ?_, ?_, fun x _ => h.ringsThrough x⟩
+  refine OpenMap.ofRingsEq h.inj (fun x _ => h.atom? x) (fun x y _ _ => h.bondBetween hm hm' x y) ?_ ?_ (fun x _ => h.ringsThrough x)
   · intro x y' e' hx hb
     obtain ⟨y, rfl⟩ := h.surj y'
     refine ⟨y, ?_, rfl⟩
